@@ -32,7 +32,8 @@
 (***************************************************************************)
 EXTENDS Naturals, Sequences, FiniteSets, TLC
 
-Nodes == {"A", "B"}
+\* A, B: the two nodes of a real network; P1..P4: per-peer ledgers of one application (manager-level close bursts)
+Nodes == {"A", "B", "P1", "P2", "P3", "P4"}
 AllQ == {"q1", "q2", "q3"}
 
 \* protos: [A |-> sequence of protocol names, B |-> ...]
@@ -42,7 +43,7 @@ MonInit(protos) ==
   [conns |-> [n \in Nodes |-> {}],          \* announced to the application, not yet closed
    ever  |-> [n \in Nodes |-> {}],          \* every connection id ever announced
    up    |-> [n \in Nodes |-> [q \in AllQ |-> FALSE]],
-   run   |-> [n \in Nodes |-> SeqSet(protos[n])],
+   run   |-> [n \in Nodes |-> IF n \in DOMAIN protos THEN SeqSet(protos[n]) ELSE {}],
    paused |-> [n \in Nodes |-> {}],
    alive |-> [n \in Nodes |-> TRUE],
    snapApp  |-> [n \in Nodes |-> FALSE],    \* at proof_begin the application held no connection
